@@ -17,6 +17,7 @@ import (
 	"github.com/pdfcpu/pdfcpu/pkg/pdfcpu/model"
 	"verif/core"
 	"verif/engine"
+	"verif/pdfgen"
 )
 
 func mkScratch() (string, error) { return os.MkdirTemp(engine.ScratchBase(), "dsm-") }
@@ -395,9 +396,38 @@ type c35Store struct{}
 func (c35Store) ID() string { return "C35" }
 func (c35Store) Docs() []string {
 	// xdp_2.0.pdf and T4.pdf carry their keywords in the catalog's XMP metadata stream as well
-	return []string{"zineTest.pdf", "test.pdf", "Walden.pdf", "xdp_2.0.pdf", "testWithText.pdf", "T4.pdf"}
+	// gen:meta: generated, keywords both in the Info dictionary and in a (newer) XMP packet
+	return []string{"zineTest.pdf", "gen:meta", "xdp_2.0.pdf", "test.pdf", "Walden.pdf", "testWithText.pdf", "T4.pdf"}
 }
+// genMetaDoc writes (independently of pdfcpu's writer) a two-page document whose keywords are recorded
+// twice, as producers do: in the Info dictionary and in the catalog's XMP metadata stream (which is
+// newer than the Info dictionary), plus one custom property. It returns the document and what it holds.
+func genMetaDoc() ([]byte, *c35Model) {
+	xmp := `<?xpacket begin="" id="W5M0MpCehiHzreSzNTczkc9d"?>
+<x:xmpmeta xmlns:x="adobe:ns:meta/">
+ <rdf:RDF xmlns:rdf="http://www.w3.org/1999/02/22-rdf-syntax-ns#">
+  <rdf:Description rdf:about="" xmlns:pdf="http://ns.adobe.com/pdf/1.3/" xmlns:xmp="http://ns.adobe.com/xap/1.0/">
+   <pdf:Keywords>gen-one; gen two</pdf:Keywords>
+   <pdf:Producer>verif pdfgen</pdf:Producer>
+   <xmp:CreateDate>2024-05-01T10:00:00Z</xmp:CreateDate>
+   <xmp:ModifyDate>2024-05-01T10:00:00Z</xmp:ModifyDate>
+  </rdf:Description>
+ </rdf:RDF>
+</x:xmpmeta>
+<?xpacket end="w"?>`
+	pages := []pdfgen.PageSpec{{Marker: "META-1"}, {Marker: "META-2"}}
+	b := pdfgen.DocX(pages, 2, []int{0}, [][4]float64{{0, 0, 300, 400}}, pdfgen.Extra{
+		Info: "/Keywords (gen-one; gen two) /Producer (verif pdfgen) /ModDate (D:20200101000000Z) /CreationDate (D:20200101000000Z) /Project (generated)",
+		XMP:  []byte(xmp)})
+	m := &c35Model{KW: map[string]bool{"gen-one": true, "gen two": true}, Props: map[string]string{"Project": "generated"}, VP: map[string]string{}, Att: map[string]string{}, Desc: map[string]string{}, XMP: true}
+	return b, m
+}
+
 func (c35Store) Materialise(doc, path string) error {
+	if doc == "gen:meta" {
+		b, _ := genMetaDoc()
+		return os.WriteFile(path, b, 0644)
+	}
 	b, err := os.ReadFile(filepath.Join("/repo/pkg/testdata", doc))
 	if err != nil {
 		return err
@@ -413,6 +443,15 @@ func (c35Store) SetupAux(aux string) error {
 	return nil
 }
 func (c35Store) Structural(string, Model) error { return nil }
+
+func (c35Store) Families() []string { return []string{"kw", "prop", "view", "vp", "att"} }
+func (c35Store) Family(op string) string {
+	switch {
+	case strings.HasPrefix(op, "layout"), strings.HasPrefix(op, "mode"):
+		return "view"
+	}
+	return strings.SplitN(op, "-", 2)[0]
+}
 
 func (c35Store) Valid(mm Model, s Step) bool {
 	m := mm.(*c35Model)
@@ -533,6 +572,12 @@ func (s c35Store) observeModel(path string) (*c35Model, error) {
 }
 
 func (s c35Store) NewModel(path string) (Model, error) {
+	if b, err := os.ReadFile(path); err == nil {
+		// generated document: the model is the generator's own description, not what pdfcpu reads
+		if gb, truth := genMetaDoc(); bytes.Equal(gb, b) {
+			return truth, nil
+		}
+	}
 	m, err := s.observeModel(path)
 	if err != nil {
 		return nil, err
